@@ -21,8 +21,10 @@ def run():
     if bad:
         print("setup: failed to compile", bad)
         return 1
-    rc = subprocess.call([C.CLANGXX, "-shared", "-o", C.PLUGIN_SO] + objs)
+    tmp = C.PLUGIN_SO + ".new"
+    rc = subprocess.call([C.CLANGXX, "-shared", "-o", tmp] + objs)
     if rc != 0:
         return rc
+    os.replace(tmp, C.PLUGIN_SO)       # atomic: a compiler already running keeps the old file
     print("setup: built", C.PLUGIN_SO)
     return 0
